@@ -184,6 +184,25 @@ fn run_seed_cases(cx: &mut Ctx, seeds: &[Seed], idx: &mut u64) -> bool {
                 return false;
             }
         }
+        // ---- directed pairs: a sample size together with an offset, both at extremes
+        for (k, (b, m)) in size_offset_cases(seed).into_iter().enumerate() {
+            *idx += 1;
+            if !cx.args.mine(*idx) {
+                continue;
+            }
+            let id = format!("s{}:szoff:{}", si, k);
+            if !cx.args.want(&id) {
+                continue;
+            }
+            for c in &m.cover {
+                cx.rep.cover_nt(hash_str(c));
+            }
+            cx.rep.add("size_and_offset_pairs", 1);
+            judge(cx, &id, &Rc::new(b), &format!("{}: {}", seed.name, m.desc), &inits);
+            if cx.rep.too_many_fails() {
+                return false;
+            }
+        }
         // ---- pairs and havoc
         let np = if thorough { 8000 } else { 1000 };
         for k in 0..np {
